@@ -485,6 +485,7 @@ func runC16(c *Collector, r *Rng, thorough bool) {
 		}
 	}
 	c16CurveValuesAndResidues(c, r)
+	c16HeldSignatures(c, r)
 }
 
 // wrappedCurve: what key stores hand out - a value that implements elliptic.Curve by delegating to the standard curve
@@ -575,6 +576,56 @@ func c16CurveValuesAndResidues(c *Collector, r *Rng) {
 				}
 				if e1 == nil || e2 == nil {
 					c.Fail("C16/verify-verdict", fmt.Sprintf("a signature whose %s was replaced by itself plus the group order (another byte string, out of range) is accepted: Verify=%v VerifyDigest=%v", which, e1, e2), rep)
+				}
+			}
+		}
+	}
+}
+
+// c16HeldSignatures: one cose.Signer over a crypto.Signer that answers with a different (r, s) each time, asked several
+// times while the caller keeps the earlier results: every result is, and stays, r||s of the (r, s) it was made from.
+func c16HeldSignatures(c *Collector, r *Rng) {
+	msg := []byte("to be signed")
+	for _, ci := range curves {
+		key, err := ecdsa.GenerateKey(ci.curve, r)
+		if err != nil {
+			continue
+		}
+		st := &stubSigner{pub: &key.PublicKey}
+		sg, err := cose.NewSigner(ci.alg, st)
+		if err != nil {
+			continue
+		}
+		order := ci.curve.Params().N
+		type held struct {
+			sig, want []byte
+		}
+		var hs []held
+		for i := 0; i < 5; i++ {
+			rr := new(big.Int).SetBytes(r.Bytes(ci.n))
+			rr.Mod(rr, order)
+			ss := new(big.Int).SetBytes(r.Bytes(ci.n - i)) // shorter and shorter s
+			ss.Mod(ss, order)
+			if rr.Sign() == 0 || ss.Sign() == 0 {
+				continue
+			}
+			st.out = derRS(rr, ss)
+			var sig []byte
+			var serr error
+			if i%2 == 0 {
+				sig, serr = sg.Sign(r, msg)
+			} else if ds, ok := sg.(cose.DigestSigner); ok {
+				sig, serr = ds.SignDigest(r, digestOf(ci.hash, msg))
+			}
+			if serr != nil || sig == nil {
+				continue
+			}
+			hs = append(hs, held{sig, append(rr.FillBytes(make([]byte, ci.n)), ss.FillBytes(make([]byte, ci.n))...)})
+			c.Eval("sign/held-signatures/"+ci.name, fmt.Sprint(i), true)
+			for j, h := range hs {
+				if !bytes.Equal(h.sig, h.want) {
+					c.Fail("C16/sign-form", fmt.Sprintf("signature %d returned by one signer over a crypto.Signer is no longer r||s of its own (r, s) after signature %d was made: %x, expected %x", j, i, trimTo(h.sig, 24), trimTo(h.want, 24)), map[string]any{"curve": ci.name})
+					return
 				}
 			}
 		}
